@@ -356,6 +356,10 @@ class Interp:
             stub = None
         if stub is not None:
             return stub(*args, **kwargs)
+        if isinstance(f, types.FunctionType) and f in _BUILTIN_MODELS:
+            r = _BUILTIN_MODELS[f](self, args, kwargs)
+            if r is not NotImplemented:
+                return r
         if isinstance(f, IFunc):
             return self.run_function(f._node, f._env, args, kwargs, f.__name__, f._is_lambda)
         if isinstance(f, types.MethodType):
@@ -424,6 +428,13 @@ class Interp:
     def call_class(self, cls, args, kwargs):
         if cls is SymDict or cls is SymSet:
             return cls(*args, **kwargs)
+        if cls in (pathlib.Path, pathlib.PurePath, pathlib.PosixPath, pathlib.PurePosixPath) and \
+                (self.symarg(args)):
+            if len(args) == 1 and isinstance(args[0], models.SymPath):
+                return args[0]
+            if len(args) == 1 and isinstance(args[0], SStr):
+                return models.SymPath(raw=args[0])
+            raise HarnessError('Path(...) of these symbolic arguments is not modelled')
         if cls in (str, int, bool, list, tuple, dict, set, frozenset, type, isinstance):
             m = _BUILTIN_MODELS.get(cls)
             if m is not None:
@@ -545,7 +556,7 @@ class Interp:
         if isinstance(slf, str) and (self.symarg(args)):
             m = models.STR_METHODS.get(name)
             if m is not None:
-                return m(SStr(z3.StringVal(slf)), *args, **kwargs)
+                return m(SStr(core.zstrval(slf)), *args, **kwargs)
         if isinstance(slf, (list, tuple)) and name == 'count' and (self.symarg(args) or self.symarg(slf)):
             acc = []
             for x in slf:
@@ -1205,7 +1216,7 @@ class Interp:
         symi = isinstance(i, Sym) or (isinstance(i, slice) and (
             isinstance(i.start, Sym) or isinstance(i.stop, Sym) or isinstance(i.step, Sym)))
         if isinstance(o, str) and symi:
-            return models.str_getitem(SStr(z3.StringVal(o)), i)
+            return models.str_getitem(SStr(core.zstrval(o)), i)
         if symi and isinstance(o, (list, tuple)):
             return models.seq_getitem(o, i)
         if isinstance(i, Sym) and isinstance(o, dict) and not isinstance(o, SymDict):
@@ -1340,7 +1351,11 @@ def _m_len(I, args, kw):
     return len(v)
 
 
-_PYTYPE = {SInt: int, SBool: bool, SStr: str, SymDict: dict, SymSet: set}
+import pathlib  # noqa: E402
+import re as _re  # noqa: E402
+
+_PYTYPE = {SInt: int, SBool: bool, SStr: str, SymDict: dict, SymSet: set,
+           models.SymPath: pathlib.PosixPath}
 
 
 def _m_isinstance(I, args, kw):
@@ -1366,6 +1381,8 @@ def _m_str(I, args, kw):
     v = args[0]
     if isinstance(v, SStr):
         return v
+    if isinstance(v, models.SymPath):
+        return v.to_str()
     if isinstance(v, Sym):
         return engine().opaque_str('str')
     s = getattr(type(v), '__str__', None)
@@ -1610,6 +1627,19 @@ _BUILTIN_MODELS = {
     next: _m_next, iter: _m_iter, hash: _m_hash, print: _m_print, getattr: _m_getattr,
     setattr: _m_setattr, ord: _m_ord, chr: _m_chr,
 }
+
+
+def _m_re_sub(I, args, kw):
+    if not I.symarg(args):
+        return NotImplemented
+    pat, repl, s = args[0], args[1], args[2]
+    if pat == r'-stubs$' and repl == '' and isinstance(s, SStr):
+        # NB: `$` also matches before a trailing newline; strings with newlines are outside the model
+        return models.str_removesuffix(s, '-stubs')
+    raise HarnessError('re.sub(%r, ...) on a symbolic string is not modelled' % (pat,))
+
+
+_BUILTIN_MODELS[_re.sub] = _m_re_sub
 
 
 def register_model(f, model):
